@@ -407,6 +407,32 @@ fn op_scale_example(c: &Case, out: &mut Out) {
     out.put("result", "Ok");
 }
 
+/// rust example for (id, seeds): determinism on the real build, and the printed example for a single seed
+fn op_rust_example(c: &Case, out: &mut Out) {
+    let reg = registry(c);
+    let Some(s) = settings(c, out) else { return };
+    let id: u32 = get(c, "id").unwrap().parse().unwrap();
+    let seed0: u64 = get(c, "seed").unwrap_or("0").parse().unwrap();
+    let n: u64 = get(c, "nseeds").unwrap_or("1").parse().unwrap();
+    let g = TypeGenerator::new(&reg, &s);
+    if let Ok(m) = g.generate_types_mod() { out.put("module", m.to_token_stream(&s).to_string()); }
+    for t in reg.types.iter() {
+        if let Ok(tp) = g.resolve_type_path(t.id) { out.put(&format!("resolve_{}", t.id), tp.to_token_stream(&s).to_string()); }
+    }
+    for seed in seed0..seed0 + n {
+        let a = scale_typegen_description::rust_value_from_seed(id, &reg, &s, seed, None, None);
+        let b = scale_typegen_description::rust_value_from_seed(id, &reg, &s, seed, None, None);
+        match (a, b) {
+            (Ok(x), Ok(y)) => {
+                if x.to_string() != y.to_string() { out.put("fail", format!("seed {seed}: two runs differ")); }
+                out.put("example", x.to_string());
+            }
+            (Err(_), Err(_)) => out.put("example", "ERR"),
+            _ => out.put("fail", format!("seed {seed}: one run errs")),
+        }
+    }
+}
+
 fn run_case(c: &Case, out: &mut Out) {
     match get(c, "op").unwrap_or("") {
         "fmt" => op_fmt(c, out),
@@ -425,6 +451,7 @@ fn run_case(c: &Case, out: &mut Out) {
         "validate" => op_validate(c, out),
         "builders" => op_builders(c, out),
         "scale_example" => op_scale_example(c, out),
+        "rust_example" => op_rust_example(c, out),
         "corpus" => {
             use parity_scale_codec::Encode;
             for (name, reg) in corpus::all() {
